@@ -102,6 +102,11 @@ var checks = map[string]checkCfg{
 		Assumptions: append([]string{"a stream that simply ends inside a record does not oblige the server to close the connection before its read timeout; only complete undecodable records do", "allocation bound: 16 x bytes sent + records x (6 x 64 KiB + 64 KiB) + 8 MiB (TotalAlloc of the whole process)"}, baseAssumptions...),
 		Phases: []phase{rp("rapid", "^TestC15$", 8, 300, 16, 4000),
 			{Name: "fuzz", Variant: "plain", ThoroughOnly: true, Fuzz: "^FuzzC15$", FuzzSeconds: 240, ThoroughShards: 1}}},
+	"C16": {Level: "exploration", Technique: "rapid schedules with harness-owned gates inside the backend + policy-version invariants; same property under the race detector",
+		Rule:        "each case is a schedule of 3-14 steps over {start a request that parks on a backend gate (read or mutating), start UpdatePolicyOptions/UpdateExportOptions to the next stamped policy, prove the drain by probing until the first retry-later reply, open a gate, probe, fresh request judged under the policy in force, rate limiting switched on under an open connection}, optionally with a 40 ms request timeout so that parked requests time out; non-trivial = an update was started while >=1 request was parked in the backend, or rate limiting was enabled under an open connection; distinct = FNV-64 of the case JSON. Schedules are sampled, not enumerated; the Go scheduler's own choices are not controlled",
+		Assumptions: append([]string{"timing guards (8-30 s) only ever yield an inconclusive part or a deadlock report after every gate was opened"}, baseAssumptions...),
+		Phases: []phase{rp("rapid", "^TestC16$", 6, 80, 16, 800),
+			{Name: "race", Variant: "race", Tests: "^TestC16$", QuickShards: 2, QuickChecks: 40, ThoroughShards: 8, ThoroughChecks: 300}}},
 	"C02": {Level: "exploration", Technique: "rapid histories vs POSIX tree model + cached-vs-uncached differential",
 		Rule:        "cases are rapid-generated sequential histories of LOOKUP/CREATE/MKDIR/SYMLINK/REMOVE/RMDIR/RENAME/READDIR(PLUS)/GETATTR/READLINK over names {a,b,c} to depth 3, addressed through every handle ever issued (stale ones included); each history runs under the all-off baseline and k cached configurations (quick 3, thorough 6 of 15); non-trivial = a read-type request on a name or directory affected by an earlier successful mutation, executed under a configuration with at least one cache on; distinct = FNV-64 of the case JSON",
 		Assumptions: append([]string{"documented latitude L1-L7 of DESIGN.md §5 C02 (REMOVE of empty dir, UNCHECKED/EXCLUSIVE on existing objects, error code identity not compared against the model, path-bound handles)"}, baseAssumptions...),
